@@ -101,23 +101,29 @@ def run(ctx, report: Report) -> None:
 
     # ---- R2 --------------------------------------------------------------------------------------------------
     r2 = report.rule('C15-R2', 'one field list: slots = constructor keywords = parameter order; pickle via constructor', floor=4)
+    # which classes the module registers for pickling/copying: the module-level statements that mention pickle_register are
+    # interpreted with a recording stand-in (a call per class, a loop over a display or over a table of classes, ...)
+    from ..interp import Interp, PkgClass, Raised as _Raised
+    from ..miniev import Unsupported as _Unsupported
     registered = set()
+
+    def rec_register(cls_, *a_, **k_):
+        if isinstance(cls_, PkgClass):
+            registered.add(cls_.qual)
     for mn, mod in src.mods.items():
-        for c in [n for n in ast.walk(mod.tree) if isinstance(n, ast.Call)]:
-            if call_name(c).split('.')[-1] == 'pickle_register' and c.args:
-                cands = [c.args[0]]
-                if isinstance(c.args[0], ast.Name):
-                    # registered in a loop over a display of classes
-                    cur = mod.parents.get(c)
-                    while cur is not None:
-                        if isinstance(cur, ast.For) and isinstance(cur.target, ast.Name) and cur.target.id == c.args[0].id \
-                                and isinstance(cur.iter, (ast.Tuple, ast.List)):
-                            cands = list(cur.iter.elts)
-                        cur = mod.parents.get(cur)
-                for a_ in cands:
-                    r = src.resolve_class_ref(mod, a_)
-                    if r:
-                        registered.add(r)
+        for st in mod.tree.body:
+            if isinstance(st, (ast.FunctionDef, ast.ClassDef, ast.Import, ast.ImportFrom)):
+                continue
+            if not any(isinstance(n, ast.Call) and call_name(n).split('.')[-1] == 'pickle_register' for n in ast.walk(st)):
+                continue
+            it = Interp(ctx, mn, None, {}, {'pickle_register': rec_register, f'{mn}.pickle_register': rec_register,
+                                              'css_types.pickle_register': rec_register}, shared={'steps': 0})
+            try:
+                it.stmt(st)
+            except _Raised as e:
+                raise AnalysisError(f'{mod.where(st)}: the registration statement raises {e.exc_name} when interpreted')
+            except _Unsupported as e:
+                raise AnalysisError(f'{mod.where(st)}: registration statement outside the evaluable fragment: {e}')
     for c in classes[1:]:
         mn, _, cn = c.partition('.')
         mod = src.mods[mn]
